@@ -9,22 +9,33 @@
 //! (b) for EVERY k in 0..N the history is replayed on a sink whose call k fails, once sticky and once transient,
 //!     error kinds rotating over `ERROR_KINDS`: REFUTED iff the sink returned an error to noodles but every
 //!     writer call of the history (finishing call included) returned Ok; whenever all calls returned Ok the sink
-//!     content must decode to the transcript of `item.bytes`;
+//!     content must decode to the transcript of `item.bytes`. For histories of moderate length the same enumeration
+//!     is repeated on a sink that accepts half of every buffer (every k of THAT healthy run, sticky), so that the
+//!     continuation writes of `write_all` loops fail as well;
 //! (c) short-write sinks (1 byte, 7 bytes, half, random) and sinks that return `Interrupted` before write calls
-//!     (first, every 3rd, random quarter, every): all calls Ok, output byte-identical to the healthy output;
+//!     (first, every 3rd, random quarter, every; every 2nd combined with 3-byte writes): all calls Ok, output
+//!     byte-identical to the healthy output (CRAM: equal length and transcripts);
 //! (d) a BGZF writer dropped without `finish` on a healthy sink leaves a walkable file with the complete payload and
 //!     the EOF marker; on a failing sink (every k) the drop does not panic, and a failure that happened during the
 //!     explicit write/flush calls is reported by one of them.
+//!
+//! The same four checks run on histories that reach the writers through their other public entry points (module
+//! `alt`): the `sam::alignment::io::Write` trait alone (`finish(&header)` as the finishing call), the
+//! `noodles_util` alignment / variant writers, and the `io::writer::Builder`s that put a `BufWriter` or a boxed BGZF
+//! writer between the format writer and the sink.
 //!
 //! A panic anywhere is a violation (`guard::catch`; a panic while unwinding aborts the child process and is
 //! attributed to the case by the runner as `process-abort`).
 //!
 //! Violation signatures: `<writer>:<class>:<phase>` with writer = corpus kind name (`bgzf-mt` / `bgzf-drop` for the
-//! two extra BGZF drivers), class ∈ {swallowed-sink-error, not-ok-on-healthy-sink, output-differs-on-healthy-sink,
-//! output-differs-under-short-writes, error-under-short-writes, output-differs-under-interrupts,
-//! error-under-interrupts, output-undecodable-after-ok, drop-loses-data, panic}, phase ∈ {header, record, finish,
-//! eof-marker} = what the failing sink call was emitting in the healthy run (derived from the byte offset of the
-//! call in the healthy output, see `phase_table`), or the phase of the first differing byte.
+//! two extra BGZF drivers, `<kind>@trait|util|builder` for the other entry points), class ∈ {swallowed-sink-error,
+//! not-ok-on-healthy-sink, output-differs-on-healthy-sink, output-differs-under-short-writes,
+//! error-under-short-writes, output-differs-under-interrupts, error-under-interrupts, output-undecodable-after-ok,
+//! drop-loses-data, panic}, phase ∈ {header, record, finish, eof-marker} = what the failing sink call was emitting in
+//! the healthy run (corpus histories: derived from the byte offset of the call in the healthy output, see
+//! `phase_map`; `alt` histories: the writer call in progress, announced by the history itself; a sink call made
+//! inside `Drop` is `eof-marker` if it emits the end marker and `finish` otherwise), or the phase of the first
+//! differing byte.
 
 mod alt;
 
@@ -56,12 +67,17 @@ enum Drive {
     BgzfMt,
     /// Kind::Bgzf, writer dropped without finish
     BgzfDrop,
+    /// Kind::Bgzf, `MultithreadedWriter` dropped without finish
+    BgzfMtDrop,
     /// only the calls of `sam::alignment::io::Write` (finish(&header) is the finishing call), then drop
     Trait,
     /// `noodles_util::{alignment, variant}::io::Writer`
     Util,
     /// the format crate's `io::writer::Builder::build_from_writer` (buffering layer created inside noodles)
     Builder,
+    /// index kinds: one call of `<crate>::fs::write(path, &index)` on a real file whose growth the OS refuses at a
+    /// chosen byte offset (RLIMIT_FSIZE) or from the start (/dev/full)
+    Fs,
 }
 
 impl Drive {
@@ -70,9 +86,11 @@ impl Drive {
             Drive::Std => "std",
             Drive::BgzfMt => "mt",
             Drive::BgzfDrop => "drop",
+            Drive::BgzfMtDrop => "mt-drop",
             Drive::Trait => "trait",
             Drive::Util => "util",
             Drive::Builder => "builder",
+            Drive::Fs => "fs",
         }
     }
 }
@@ -97,9 +115,11 @@ fn writer_name(kind: Kind, drive: Drive) -> String {
         Drive::Std => kind.name().to_string(),
         Drive::BgzfMt => "bgzf-mt".to_string(),
         Drive::BgzfDrop => "bgzf-drop".to_string(),
+        Drive::BgzfMtDrop => "bgzf-mt-drop".to_string(),
         Drive::Trait => format!("{}@trait", kind.name()),
         Drive::Util => format!("{}@util", kind.name()),
         Drive::Builder => format!("{}@builder", kind.name()),
+        Drive::Fs => format!("{}@fs", kind.name()),
     }
 }
 
@@ -108,6 +128,7 @@ fn drives_of(kind: Kind) -> Vec<Drive> {
     if kind == Kind::Bgzf {
         v.push(Drive::BgzfMt);
         v.push(Drive::BgzfDrop);
+        v.push(Drive::BgzfMtDrop);
     }
     if alt::has_trait_history(kind) {
         v.push(Drive::Trait);
@@ -117,6 +138,9 @@ fn drives_of(kind: Kind) -> Vec<Drive> {
     }
     if alt::has_builder_history(kind) {
         v.push(Drive::Builder);
+    }
+    if alt::has_fs_write(kind) {
+        v.push(Drive::Fs);
     }
     v
 }
@@ -209,6 +233,18 @@ fn bgzf_drop_history<W: Write>(p: &Prepared, sink: W, before_drop: impl FnOnce()
     r
 }
 
+/// The same with `MultithreadedWriter` (the corpus has no driver for it).
+fn bgzf_mt_drop_history<W: Write + Send + 'static>(p: &Prepared, sink: W, before_drop: impl FnOnce()) -> io::Result<()> {
+    let Model::Bgzf { payload, ops } = &p.model else {
+        return Err(io::Error::new(io::ErrorKind::Unsupported, "c14: not a bgzf model"));
+    };
+    let mut w = bgzf::io::MultithreadedWriter::new(sink);
+    let r = bgzf_ops(&mut w, payload, ops);
+    before_drop();
+    drop(w);
+    r
+}
+
 /// Replays the history on `sink`. Never catches panics (callers wrap it in `guard::catch`).
 fn drive<W: Write + Send + 'static>(item: &Item, p: &Prepared, d: Drive, sink: W, before_drop: impl FnOnce()) -> io::Result<()> {
     alt::set_phase(alt::P_UNKNOWN);
@@ -216,9 +252,11 @@ fn drive<W: Write + Send + 'static>(item: &Item, p: &Prepared, d: Drive, sink: W
         Drive::Std => corpus::write_prepared(p, sink),
         Drive::BgzfMt => corpus::write_history_bgzf_mt(item, sink),
         Drive::BgzfDrop => bgzf_drop_history(p, sink, before_drop),
+        Drive::BgzfMtDrop => bgzf_mt_drop_history(p, sink, before_drop),
         Drive::Trait => alt::trait_history(p, sink),
         Drive::Util => alt::util_history(p, sink),
         Drive::Builder => alt::builder_history(p, sink),
+        Drive::Fs => Err(io::Error::new(io::ErrorKind::Unsupported, "c14: fs::write takes a path, not a sink")),
     }
 }
 
@@ -300,7 +338,7 @@ fn text_header_end(bytes: &[u8], lead: u8) -> usize {
 }
 
 /// Derived from the healthy output of THIS run (CRAM bytes differ from run to run, the container sizes do not).
-fn phase_map(item: &Item, d: Drive, out: &[u8]) -> PhaseMap {
+fn phase_map(item: &Item, _d: Drive, out: &[u8]) -> PhaseMap {
     let len = out.len();
     let kind = item.kind;
     if kind.is_bgzf_wrapped() {
@@ -331,7 +369,6 @@ fn phase_map(item: &Item, d: Drive, out: &[u8]) -> PhaseMap {
             }
             u += m.data.len();
         }
-        let _ = d;
         return PhaseMap { header_end, finish_start, eof_start, len };
     }
     match kind {
@@ -524,6 +561,9 @@ fn run_fault(h: &HCtx, k: usize, mode: FaultMode, ekind: io::ErrorKind, half: bo
             // BgzfDrop: only failures that happened during explicit calls can be reported by a call
             let reportable_errors = match (h.drive, mark) {
                 (Drive::BgzfDrop, Some((_, errs_before_drop))) => errs_before_drop,
+                // the sink lives on the background thread: its failure reaches the caller asynchronously, at the
+                // latest through finish() — which a dropped writer calls itself, discarding the result
+                (Drive::BgzfMtDrop, _) => 0,
                 _ => errors_returned,
             };
             if reportable_errors > 0 {
@@ -554,7 +594,7 @@ fn run_fault(h: &HCtx, k: usize, mode: FaultMode, ekind: io::ErrorKind, half: bo
                 o.count("fault_positions_not_reached", 1);
                 // all calls Ok: the destination must hold the complete file
                 let got = sink.bytes();
-                let complete = if h.drive == Drive::BgzfDrop { Ok(()) } else { decodes_equal(h.item, &h.healthy.bytes, &got) };
+                let complete = decodes_equal(h.item, &h.healthy.bytes, &got);
                 if let Err(why) = complete {
                     let at = first_diff(&got, &h.healthy.bytes);
                     v.add(
@@ -667,7 +707,7 @@ fn run_base(ctx: &Ctx, h: &HCtx, o: &mut CaseOut, v: &mut Viol) {
                 }
                 // item.bytes is what the corpus wrote on a Vec<u8>
                 let same = match h.drive {
-                    Drive::BgzfDrop => Ok(()), // judged below with the walker
+                    Drive::BgzfDrop | Drive::BgzfMtDrop => Ok(()), // judged below with the walker
                     // other entry points: no intermediate flushes, default CRAM layout — same content, other layout
                     Drive::Trait | Drive::Util | Drive::Builder => decodes_equal(item, &item.bytes, &got),
                     _ if item.write_bytes_deterministic() => {
@@ -679,7 +719,7 @@ fn run_base(ctx: &Ctx, h: &HCtx, o: &mut CaseOut, v: &mut Viol) {
                     v.add(o, format!("{w}:output-differs-on-healthy-sink:{}", h.phases.at(first_diff(&got, &item.bytes))), format!("{w} history of {}: {why}", item.name), Value::Null);
                 }
                 // the healthy output must itself decode (complete file)
-                if h.drive != Drive::BgzfDrop {
+                if !matches!(h.drive, Drive::BgzfDrop | Drive::BgzfMtDrop) {
                     match content_transcript(item, &got) {
                         Ok(t) if t.last().map(|s| s.as_str()) == Some("END") => o.count("healthy_outputs_decoded", 1),
                         Ok(t) => v.add(o, format!("{w}:output-undecodable-after-ok:{PH_FINISH}"), format!("{w} history of {}: healthy output does not read to END: {:?}", item.name, t.last()), Value::Null),
@@ -689,11 +729,11 @@ fn run_base(ctx: &Ctx, h: &HCtx, o: &mut CaseOut, v: &mut Viol) {
             }
         }
     }
-    // (d) drop without finish on a healthy sink, through the corpus driver
-    if h.drive == Drive::BgzfDrop {
+    // (d) drop without finish on a healthy sink (single-threaded writer: through the corpus driver)
+    if matches!(h.drive, Drive::BgzfDrop | Drive::BgzfMtDrop) {
         let sink = FaultyWrite::healthy();
         let s2 = sink.clone();
-        let res = guard::catch(|| corpus::write_history_bgzf_drop(item, s2));
+        let res = guard::catch(|| if h.drive == Drive::BgzfDrop { corpus::write_history_bgzf_drop(item, s2) } else { bgzf_mt_drop_history(h.prepared, s2, || {}) });
         o.evaluations += 1;
         let got = sink.bytes();
         let payload = item.side.model.clone().unwrap_or_default();
@@ -770,6 +810,114 @@ fn run_base(ctx: &Ctx, h: &HCtx, o: &mut CaseOut, v: &mut Viol) {
     }
 }
 
+/// `<index crate>::fs::write(path, &index)`: the whole history is one call; the "sink" is a real file.
+fn run_fs(ctx: &Ctx, c: &Case, item: &Item, prepared: &Prepared, w: &str, o: &mut CaseOut, v: &mut Viol) {
+    let tag = match c.part {
+        Part::Base => "base".to_string(),
+        Part::Faults { lo, .. } | Part::FaultsHalf { lo, .. } => lo.to_string(),
+    };
+    let path = ctx.work.join(format!("c14-fs-{}-{tag}.out", c.hist));
+    let _ = std::fs::remove_file(&path);
+    let healthy_res = guard::catch(|| alt::fs_write(prepared, &path));
+    let healthy = std::fs::read(&path).unwrap_or_default();
+    let phases = phase_map(item, Drive::Fs, &healthy);
+    match c.part {
+        Part::Base => {
+            o.evaluations += 1;
+            o.count(&format!("histories[{w}]"), 1);
+            o.count("histories", 1);
+            o.fp = fnv1a(format!("B|{w}|{}", item.name).as_bytes());
+            match healthy_res {
+                Err(p) => v.add(o, format!("{w}:panic:{PH_FINISH}:{}", p.sig), format!("fs::write of {} panicked: {}", item.name, p.message), Value::Null),
+                Ok(Err(e)) => v.add(o, format!("{w}:not-ok-on-healthy-sink:{PH_FINISH}"), format!("fs::write of {} to a regular file returned {:?}: {e}", item.name, e.kind()), Value::Null),
+                Ok(Ok(())) => {
+                    if let Err(why) = decodes_equal(item, &item.bytes, &healthy) {
+                        v.add(o, format!("{w}:output-differs-on-healthy-sink:{PH_FINISH}"), format!("fs::write of {}: {why}", item.name), Value::Null);
+                    }
+                    if healthy.len() != item.bytes.len() {
+                        o.inconclusive.push(format!("{w}: fs::write of {} gives {} bytes, the corpus item has {}", item.name, healthy.len(), item.bytes.len()));
+                    }
+                    o.count(&format!("fault_positions_total[{w}]"), healthy.len() as u64 + 1);
+                    o.count("fault_positions_total", healthy.len() as u64 + 1);
+                    o.max(&format!("max_sink_calls[{w}]"), healthy.len() as u64 + 1);
+                }
+            }
+        }
+        Part::FaultsHalf { .. } => {}
+        Part::Faults { lo, hi } => {
+            if !matches!(healthy_res, Ok(Ok(()))) {
+                return; // reported by the base case
+            }
+            let len = healthy.len();
+            for k in lo..hi.min(len + 1) {
+                let dev_full = k == len;
+                let (res, got, how) = if dev_full {
+                    if !std::path::Path::new("/dev/full").exists() {
+                        o.count("fault_positions_enumerated", 1);
+                        o.count(&format!("fault_positions_enumerated[{w}]"), 1);
+                        o.inconclusive.push("/dev/full does not exist".into());
+                        continue;
+                    }
+                    (guard::catch(|| alt::fs_write(prepared, std::path::Path::new("/dev/full"))), Vec::new(), "every write fails with ENOSPC (/dev/full)".to_string())
+                } else {
+                    let _ = std::fs::remove_file(&path);
+                    let r = match alt::with_file_size_limit(k as u64, || guard::catch(|| alt::fs_write(prepared, &path))) {
+                        Ok(r) => r,
+                        Err(e) => {
+                            o.inconclusive.push(format!("cannot set RLIMIT_FSIZE: {e}"));
+                            return;
+                        }
+                    };
+                    (r, std::fs::read(&path).unwrap_or_default(), format!("the file cannot grow beyond {k} bytes (RLIMIT_FSIZE; write cut short, then EFBIG)"))
+                };
+                o.evaluations += 1;
+                o.count("fault_positions_enumerated", 1);
+                o.count(&format!("fault_positions_enumerated[{w}]"), 1);
+                o.count("fs_write_fault_runs", 1);
+                let phase = if dev_full { PH_FINISH } else if phases.at(k) == PH_EOF { PH_EOF } else { PH_FINISH };
+                let outcome;
+                match res {
+                    Err(p) => {
+                        outcome = "panic";
+                        v.add(o, format!("{w}:panic:{phase}:{}", p.sig), format!("fs::write of {} where {how}: panicked: {}", item.name, p.message), json!({"k": k}));
+                    }
+                    Ok(Ok(())) => {
+                        // (an empty index writes nothing: nothing can fail)
+                        if (dev_full && len > 0) || (!dev_full && got != healthy) {
+                            outcome = "swallowed";
+                            v.add(
+                                o,
+                                format!("{w}:swallowed-sink-error:{phase}"),
+                                format!(
+                                    "fs::write of {} where {how} returned Ok(()); the destination holds {} of {len} bytes",
+                                    item.name,
+                                    if dev_full { 0 } else { got.len() }
+                                ),
+                                json!({"writer": w, "item": item.name, "limit": k, "len": len, "dev_full": dev_full}),
+                            );
+                        } else {
+                            outcome = "not-reached";
+                            o.count("fault_positions_not_reached", 1);
+                        }
+                    }
+                    Ok(Err(e)) => {
+                        outcome = "surfaced";
+                        match e.raw_os_error() {
+                            Some(code) if code == libc::EFBIG || code == libc::ENOSPC => o.count("faults_surfaced_as_the_injected_error", 1),
+                            _ => {
+                                o.count("faults_surfaced_as_other_error", 1);
+                                o.count(&format!("faults_surfaced_as_other_error[{w}:os->{:?}]", e.kind()), 1);
+                            }
+                        }
+                    }
+                }
+                o.fps.push(fnv1a(format!("FS|{w}|{phase}|{dev_full}|{outcome}").as_bytes()));
+            }
+        }
+    }
+    let _ = std::fs::remove_file(&path);
+}
+
 // ---------------------------------------------------------------------------------------------------------------
 // case generation
 
@@ -819,9 +967,14 @@ fn gen_world(ctx: &Ctx) -> World {
                     continue;
                 }
             }
+            if d == Drive::Fs {
+                // positions = byte offsets 0..len at which the file may not grow any further, plus /dev/full
+                cand.push(Hist { item: i, drive: d, n: it.bytes.len() + 1, n_half: 0 });
+                continue;
+            }
             let n = probe_run(it, &p, d, false).map(|h| h.calls.len()).unwrap_or(0);
             // the background thread of the multithreaded writer emits frames exactly like the single-threaded one
-            let n_half = if n > 0 && n <= half_max && d != Drive::BgzfMt { probe_run(it, &p, d, true).map(|h| h.calls.len()).unwrap_or(0) } else { 0 };
+            let n_half = if n > 0 && n <= half_max && !matches!(d, Drive::BgzfMt | Drive::BgzfMtDrop) { probe_run(it, &p, d, true).map(|h| h.calls.len()).unwrap_or(0) } else { 0 };
             cand.push(Hist { item: i, drive: d, n, n_half });
         }
     }
@@ -862,7 +1015,11 @@ fn gen_world(ctx: &Ctx) -> World {
     let mut cases = Vec::new();
     for (hi, h) in hists.iter().enumerate() {
         cases.push(Case { hist: hi, part: Part::Base });
-        let per_run_overhead = if h.drive == Drive::BgzfMt { 4000 } else { 60 };
+        let per_run_overhead = match h.drive {
+            Drive::BgzfMt | Drive::BgzfMtDrop => 4000,
+            Drive::Fs => 1500,
+            _ => 60,
+        };
         let mut lo = 0usize;
         let mut cost = 0usize;
         for k in 0..h.n {
@@ -916,6 +1073,10 @@ fn run_case(ctx: &Ctx, w: &World, c: &Case) -> CaseOut {
             return o;
         }
     };
+    if h.drive == Drive::Fs {
+        run_fs(ctx, c, item, &prepared, &writer, &mut o, &mut v);
+        return o;
+    }
     let half = matches!(c.part, Part::FaultsHalf { .. });
     let healthy = match probe_run(item, &prepared, h.drive, half) {
         Ok(hh) => hh,
